@@ -390,6 +390,41 @@ impl SwiftField for Field32 {
         }
     }
 
+    fn parse_with_variant(
+        value: &str,
+        variant: Option<&str>,
+        _field_tag: Option<&str>,
+    ) -> crate::Result<Self>
+    where
+        Self: Sized,
+    {
+        match variant {
+            Some("A") => {
+                let field = Field32A::parse(value)?;
+                Ok(Field32::A(field))
+            }
+            Some("B") => {
+                let field = Field32B::parse(value)?;
+                Ok(Field32::B(field))
+            }
+            Some("C") => {
+                let field = Field32C::parse(value)?;
+                Ok(Field32::C(field))
+            }
+            Some("D") => {
+                let field = Field32D::parse(value)?;
+                Ok(Field32::D(field))
+            }
+            None => {
+                // No option letter given: the option is inferred from the content
+                Self::parse(value)
+            }
+            Some(other) => Err(ParseError::InvalidFormat {
+                message: format!("Field 32 has no option {}", other),
+            }),
+        }
+    }
+
     fn to_swift_string(&self) -> String {
         match self {
             Field32::A(field) => field.to_swift_string(),
@@ -431,6 +466,33 @@ impl SwiftField for Field32AB {
         Err(ParseError::InvalidFormat {
             message: "Field 32 must be either format 32A (YYMMDD + Currency + Amount) or 32B (Currency + Amount)".to_string(),
         })
+    }
+
+    fn parse_with_variant(
+        value: &str,
+        variant: Option<&str>,
+        _field_tag: Option<&str>,
+    ) -> crate::Result<Self>
+    where
+        Self: Sized,
+    {
+        match variant {
+            Some("A") => {
+                let field = Field32A::parse(value)?;
+                Ok(Field32AB::A(field))
+            }
+            Some("B") => {
+                let field = Field32B::parse(value)?;
+                Ok(Field32AB::B(field))
+            }
+            None => {
+                // No option letter given: the option is inferred from the content
+                Self::parse(value)
+            }
+            Some(other) => Err(ParseError::InvalidFormat {
+                message: format!("Field 32 has no option {}", other),
+            }),
+        }
     }
 
     fn to_swift_string(&self) -> String {
